@@ -2,6 +2,7 @@ package o
 
 import (
 	"math"
+	"strings"
 	"github.com/vbauerster/mpb/v8/decor"
 	"github.com/vbauerster/mpb/v8/zzverif/h"
 )
@@ -162,7 +163,13 @@ func genPrio(r *Rand, nb int) int {
 }
 
 func genDec(r *Rand, p *Profile, sync bool) h.DecSpec {
+	if r.Bool(0.04) {
+		return h.DecSpec{Kind: h.DecNil, Style: r.Intn(3)}
+	}
 	d := h.DecSpec{Kind: h.DecProbe, Text: r.Intn(len(h.Texts)), Vary: r.Weighted(3, 2, 2)}
+	if r.Bool(0.1) {
+		d.Cond = r.Range(1, 4)
+	}
 	if r.Bool(0.4) {
 		d.W = r.Range(0, 14)
 	}
@@ -246,6 +253,9 @@ func GenBase(r *Rand, p *Profile) *h.Scenario {
 		b.RmOnComp = r.Bool(p.PRm)
 		b.NoPop = r.Bool(p.PNoPop)
 		b.Trim = r.Bool(0.2)
+		if r.Bool(0.2) {
+			b.OptVariant = r.Range(1, 60)
+		}
 		b.FillOnComplete = r.Bool(0.2)
 		b.FillOnAbort = r.Bool(0.2)
 		if r.Bool(0.15) && !narrow {
@@ -266,6 +276,9 @@ func GenBase(r *Rand, p *Profile) *h.Scenario {
 		}
 		for k, n := 0, r.Intn(p.MaxDecs+1); k < n; k++ {
 			b.App = append(b.App, genDec(r, p, r.Bool(p.PSync)))
+		}
+		if r.Bool(0.04) {
+			b.QueueAfter = -2 // BarQueueAfter(nil): not queued
 		}
 		if i > 0 && r.Bool(p.PQueueAfter) {
 			b.QueueAfter = r.Intn(i)
@@ -599,6 +612,24 @@ func genOp(r *Rand, p *Profile, sc *h.Scenario, cand []*barGen, client int, nWri
 		if r.Bool(0.2) {
 			*nWrites++
 			s += UserLine(client, *nWrites, lineBodies[r.Intn(len(lineBodies))])
+		}
+		if r.Bool(0.06) {
+			// a whole paragraph in one call
+			for k, n := 0, r.Range(2, 8); k < n; k++ {
+				*nWrites++
+				s += UserLine(client, *nWrites, lineBodies[r.Intn(len(lineBodies))])
+			}
+		}
+		if r.Bool(0.03) {
+			// more than 4 KiB in one call
+			long := "long-" + strings.Repeat("0123456789", 8)
+			for len(s) < 4200 {
+				*nWrites++
+				s += UserLine(client, *nWrites, long)
+			}
+		}
+		if r.Bool(0.04) {
+			s = "" // an empty Write is a valid io.Writer call
 		}
 		op = h.Op{K: h.OpWrite, S: s}
 	case 7:
